@@ -103,6 +103,10 @@ def correspond_c20(tier, impl_only=False):
             f.write(src)
         for sink in ("stdout", "file"):
             outp = os.path.join(d, "out%d.rs" % c["id"])
+            if sink == "file" and c["id"] % 2 == 0:
+                # the target may already exist (a previous, longer generation): the file must end up as exactly the output
+                with open(outp, "w") as f:
+                    f.write("// stale line of a previous generation\n" * (len(want) // 30 + 50))
             cmd = [CLI, "-m", path, "-d", c["device_name"]] + (["-o", outp] if sink == "file" else [])
             r = subprocess.run(cmd, capture_output=True, text=True)
             got = r.stdout if sink == "stdout" else (open(outp).read() if os.path.exists(outp) else None)
